@@ -218,9 +218,65 @@ def mk_prop_order(n):
     return PropertyOrder(n)
 
 
+def k_primary(P, codes):
+    """return type chosen by the real ResponseStrategyResolver for an operation whose responses are listed in this order"""
+    from importlib import import_module
+
+    rs = import_module(P.__name__ + ".types.strategies.response_strategy")
+    rc = import_module(P.__name__ + ".context.render_context")
+    bodies = {"200": "string", "201": "integer", "202": "boolean", "204": None, "203": "number", "default": "string"}
+    resps = []
+    for c in codes:
+        t = bodies[c]
+        resps.append(P.IRResponse(status_code=c, description="d", content={"application/json": P.IRSchema(type=t)} if t else {}))
+    op = P.IROperation(operation_id="op", method=P.HTTPMethod.GET, path="/x", summary=None, description=None, parameters=[],
+                       request_body=None, responses=resps, tags=[])
+    ctx = rc.RenderContext(core_package_name="core", package_root_for_generated_code="/tmp/x", overall_project_root="/tmp")
+    ctx.set_current_file("/tmp/x/endpoints/e.py")
+    return rs.ResponseStrategyResolver({}).resolve(op, ctx).return_type
+
+
+class ResponseOrder(Obligation):
+    """The primary success response (and with it the return type) must not depend on the order of the response keys."""
+
+    functions = ["pyopenapi_gen.types.strategies.response_strategy:ResponseStrategyResolver._get_primary_response",
+                 "pyopenapi_gen.types.strategies.response_strategy:ResponseStrategyResolver.resolve"]
+    POOL = ["200", "201", "202", "204", "203", "default"]
+
+    def __init__(self, k):
+        self.k = k
+        self.name = "response_key_order/k=%d" % k
+        self.bounds = {"responses": "every %d-subset of %r, every order (solver-chosen)" % (k, self.POOL)}
+
+    def make_inputs(self, e):
+        subsets = list(itertools.combinations(self.POOL, self.k))
+        return {"codes": list(subsets[e.choose(len(subsets), "subset")])}
+
+    def _run(self, P, inp):
+        return [call_catching(k_primary, P, list(perm)) for perm in itertools.permutations(inp["codes"])]
+
+    def run_sym(self, inp):
+        return self._run(c02._I(), inp)
+
+    def run_real(self, inp):
+        return self._run(c02._R(), inp)
+
+    def prop(self, inp, r):
+        return all(x == r[0] for x in r[1:])
+
+    def describe_violation(self, inp, r):
+        return "responses %r: return type per listing order %r" % (inp["codes"], r)
+
+
+def mk_resp_order(k):
+    return ResponseOrder(k)
+
+
 def specs(tier):
     q = tier == "quick"
-    out = [(MOD, "mk_scalar", (False,)), (MOD, "mk_scalar", (True,))]
+    out = [(MOD, "mk_scalar", (False,)), (MOD, "mk_scalar", (True,)), (MOD, "mk_resp_order", (2,))]
+    if not q:
+        out.append((MOD, "mk_resp_order", (3,)))
     for n in ((1, 2) if q else (1, 2, 3)):
         out.append((MOD, "mk_prop_order", (n,)))
     for t, (n, _, _, _) in c02.TEMPLATES.items():
@@ -256,6 +312,8 @@ def replay(path):
     parts = v["obligation"].split("/")
     if parts[0].startswith("status_key_typing"):
         ob = ScalarTyping(parts[0].endswith("+default"))
+    elif parts[0] == "response_key_order":
+        ob = ResponseOrder(int(parts[1].split("=")[1]))
     elif parts[0] == "property_order":
         ob = PropertyOrder(len(v["inputs"]["name"]))
     else:
